@@ -174,5 +174,85 @@ def run(chk, F, tier):
     chk.check(not pure_char_cmp or uses_len, "R01c", "reader-eof-sentinel",
               "Reader::is_eof is a comparison of the current character with the constant EOF = '\\0', a legal input character: the "
               "tokenizer stops at the first NUL and everything after it is missing from the tree", ie.loc())
+    # ---- R01f: every token the parser steps over as trivia is emitted by parse_trivia_tokens ------------------------------------------
+    import cfgutil as _cfg
+    chk.rule("R01f", "every switch over a token kind in LuaParser::parse_trivia_tokens that leads to an emission (EatToken event / comment group) "
+                     "lists all the kinds of is_trivia_kind: a trivia kind that falls into the drop-everything-else arm disappears from the tree")
+    PT = "emmylua_parser::parser::lua_parser::"
+    itk = F.bodies.get(PT + "is_trivia_kind")
+    ptt = F.bodies.get(PT + "LuaParser::parse_trivia_tokens")
+    if itk is None or ptt is None:
+        raise RuleBroken("is_trivia_kind / parse_trivia_tokens not found")
+    trivia = set()
+    for blk in itk.blocks:
+        t = blk[2]
+        if t[0] == "sw":
+            trivia |= {v for v, _ in t[2] if isinstance(v, int)}
+    chk.floor("trivia token kinds", len(trivia), 5)
+    tk = F.adts.get("emmylua_parser::kind::lua_token_kind::LuaTokenKind")
+    names = [v["name"] for v in tk["variants"]] if tk else []
+    nm = lambda v: names[v] if 0 <= v < len(names) else str(v)
+    succ = ptt.succ_map()
+    emits = set()
+    for bi, blk in enumerate(ptt.blocks):
+        for st in blk[1]:
+            if st[0] == "a" and st[2][0] == "agg" and st[2][1] == "adt" and (st[2][2] or "").endswith("MarkEvent") and st[2][3] == "EatToken":
+                emits.add(bi)
+        t = blk[2]
+        if t[0] == "call" and ((t[1].get("r") or t[1].get("f") or "").endswith(("LuaParser::parse_comments",)) or
+                               ((t[1].get("r") or t[1].get("f") or "").endswith("Vec::<T, A>::push") and t[1]["a"] and "LuaTokenData" in ptt.ty_str_op(t[1]["a"][0]))):
+            emits.add(bi)
+    nsw = 0
+    for bi, blk in enumerate(ptt.blocks):
+        t = blk[2]
+        if blk[0] or t[0] != "sw" or t[1][0] not in ("c", "m"):
+            continue
+        # discriminant of a LuaTokenKind value?
+        dl = t[1][1][0]
+        is_kind = any(st[0] == "a" and st[1] == [dl] and st[2][0] == "disc" and
+                      ("LuaTokenKind" in ptt.local_ty_str(st[2][1][0]) or
+                       any(isinstance(e, list) and e[0] == "f" and e[2] == "kind" for e in st[2][1][1:])) for st in blk[1])
+        if not is_kind:
+            continue
+        # only the token the enclosing `for i in start..next_index` loop is currently visiting (tokens[i] with i the loop variable);
+        # scans over other tokens (the backwards look for an inline comment) decide nothing about emission of *this* token
+        import dataflow as _dfl
+        src_local = next(st[2][1][0] for st in blk[1] if st[0] == "a" and st[1] == [dl] and st[2][0] == "disc")
+        loop_tok = False
+        seen_l, todo_l = set(), [src_local]
+        while todo_l:
+            x = todo_l.pop()
+            if x in seen_l:
+                continue
+            seen_l.add(x)
+            for r in _dfl.roots(ptt, x):
+                if r[0] == "call":
+                    cc = ptt.blocks[r[1]][2][1]
+                    if (cc.get("r") or cc.get("f") or "").endswith("::index") and len(cc["a"]) == 2:
+                        il = _dfl.operand_local(cc["a"][1])
+                        for r2 in (_dfl.roots(ptt, il) if il is not None else ()):
+                            if r2[0] == "place" and r2[2] and isinstance(r2[2][0], (list, tuple)) and r2[2][0][0] == "d" and r2[2][0][1] == "Some":
+                                loop_tok = True
+                elif r[0] == "place":
+                    # `for token in &self.tokens[a..b]`: the token is the payload of the slice iterator's next()
+                    if r[2] and isinstance(r[2][0], (list, tuple)) and r[2][0][0] == "d" and r[2][0][1] == "Some" and \
+                            any(cb2 for cb2, cc2 in ptt.calls() if cc2["d"] == [r[1]] and (cc2.get("r") or cc2.get("f") or "").endswith("::next")):
+                        loop_tok = True
+                    todo_l.append(r[1])
+        if not loop_tok:
+            continue
+        listed = {v for v, _ in t[2] if isinstance(v, int)}
+        # does a listed arm lead to an emission before the loop comes round?
+        leads = any(any(e == tb or e in _cfg.reachable({k: [y for y in v if y != bi] for k, v in enumerate(succ)}, tb) for e in emits) for _, tb in t[2])
+        if not leads:
+            continue
+        nsw += 1
+        missing = sorted(trivia - listed)
+        chk.check(not missing or not (listed & trivia), "R01f", "trivia-switch#%d" % nsw,
+                  "parse_trivia_tokens emits tokens under a kind test that lists %s but not %s, which bump() also skips as trivia: those tokens are "
+                  "neither parsed nor emitted, so their text is missing from the tree and every later offset shifts"
+                  % ([nm(v) for v in sorted(listed & trivia)], [nm(v) for v in missing]), ptt.loc(t[4] if len(t) > 4 and isinstance(t[4], int) else None),
+                  sample={"rule": "R01f", "switch": nsw, "verdict": "all trivia kinds have an emitting arm"})
+    chk.floor("emitting kind switches in parse_trivia_tokens", nsw, 1)
     chk.explanation = ("Marker API outcomes computed from marker.rs's MIR; least-fixpoint outcome sets (variant, d_open) for all grammar "
                        "functions with Result-variant knowledge on paths; who-may-call on the event vector; shape of the EOF predicate.")
